@@ -287,7 +287,7 @@ PROPS["C14"] = {
     "level_note": "Strings containing NUL are given through sized kinds in every run (zero-terminated kinds cannot carry them).",
     "quick": {"configs": ["default", "arduino"], "cases": 8000, "floor_evaluations": 12000, "floor_nontrivial": 2500},
     "thorough": {"configs": ["default", "arduino", "g1_16_4_1"], "cases": 800000, "floor_evaluations": 1500000},
-    "regress": ["doc_set_char_array", "linked_string_as_double"],
+    "regress": ["doc_set_char_array", "doc_assign_char_array", "linked_string_as_double"],
 }
 
 PROPS["C05"] = {
